@@ -25,7 +25,23 @@ Record obs := Obs {
   o_active : list (chan_key * option bytes);
   o_metas : list (chan_key * option runtime_meta) }.
 
-Record c17_case := C17Case { c_steps : list (list cmd * obs) }.
+(* in a case file a step whose observed state equals the previous one is written
+   [Same result] (shorter files); [expand] restores the full observations *)
+Inductive step_obs := Full (o : obs) | Same (r : bres).
+
+Record c17_case := C17Case { c_raw_steps : list (list cmd * step_obs) }.
+
+Fixpoint expand (prev : obs) (l : list (list cmd * step_obs)) : list (list cmd * obs) :=
+  match l with
+  | [] => []
+  | (cs, Full o) :: r => (cs, o) :: expand o r
+  | (cs, Same res) :: r =>
+      let o := Obs res (o_tasks prev) (o_active prev) (o_metas prev) in
+      (cs, o) :: expand o r
+  end.
+
+Definition c_steps (c : c17_case) : list (list cmd * obs) :=
+  expand (Obs (BResults []) [] [] []) (c_raw_steps c).
 
 (* ---- model vs implementation ------------------------------------------------------- *)
 
